@@ -366,6 +366,10 @@ func runModule(inp *input, scratch string) core.Result {
 				gi = 99999
 			}
 			switch e.K {
+			case "new": // GeneratorNewer.New was called (only recorded for generators with new_defers / new_render): Go-side oracle
+				readable = append(readable, fmt.Sprintf("new p%d %s", pi, e.Gen))
+			case "ndefer":
+				readable = append(readable, fmt.Sprintf("new-defer p%d %s #%d", pi, e.Gen, e.DID))
 			case "defer":
 				evs = append(evs, fmt.Sprintf("EDefer %d %d %d", pi, gi, e.DID))
 				readable = append(readable, fmt.Sprintf("defer p%d %s #%d", pi, e.Gen, e.DID))
@@ -384,6 +388,9 @@ func runModule(inp *input, scratch string) core.Result {
 		}
 		writes(co.Final)
 		oc := errClass(co.Err)
+		for _, v := range newDeferViolations(inp, &co, oc == "Done") {
+			res.GoViolations = append(res.GoViolations, fmt.Sprintf("execution %d: %s", k+1, v))
+		}
 		obs.Runs = append(obs.Runs, runObs{Outcome: oc, Err: co.Err, Events: readable})
 		o := "(Some " + oc + ")"
 		if oc == "Other" {
@@ -529,6 +536,24 @@ func runModule(inp *input, scratch string) core.Result {
 	}
 	if inp.Probe {
 		feat["generator_asks_doc_of_type_params_and_locals"] = true
+	}
+	for _, g := range inp.Gens {
+		if len(g.NewDefers) > 0 {
+			feat["defers_registered_inside_New"] = true
+			for _, d := range g.NewDefers {
+				if len(d.Nested) > 0 {
+					feat["nested_defers_registered_inside_New"] = true
+				}
+			}
+		}
+		if g.NewRender {
+			feat["New_touches_the_writer"] = true
+		}
+	}
+	for _, e := range obs.Runs[0].Events {
+		if strings.HasPrefix(e, "new-defer ") {
+			feat["defer_registered_inside_New_ran"] = true
+		}
 	}
 	if len(loaded) > 1 {
 		feat["several_packages"] = true
